@@ -111,10 +111,12 @@ impl Topic {
     pub async fn remove_subscription(
         &self,
         name: SubscriptionName,
+        internal_id: u32,
     ) -> Result<(), RemoveSubscriptionError> {
         let (send, recv) = oneshot::channel();
         let request = TopicRequest::RemoveSubscription {
             name,
+            internal_id,
             responder: send,
         };
         #[cfg(deltio_verif)]
